@@ -69,7 +69,8 @@ def execReinit (st : NodeSt) (sub : SubOp) (stored : NOp) : ExecOut :=
     | none => { st := st, out := .reject }
     | some _ =>
       match p.dkg with
-      | none => { st := st, out := .panic }
+      -- a round without a key-generation part: an error since fix 2fefb3d (a nil dereference, i.e. a panic, before)
+      | none => { st := st, out := .reject }
       | some dc =>
         let st1 := saveFSM st sub.round (ds, { p with dkg := some { dc with pubPolyBz := sub.extra } })
         match deleteOperation st1 stored with
